@@ -39,9 +39,12 @@ CLAIMS = {
         text='PROVED for all templates (per-channel extremes), geometries, shank tables, neighbourhood sizes and thresholds in [0,1]: get_closest_channels (the channel itself first, distinct, nearest first, '
              'listed are no farther than unlisted, at most n) and _find_best_channels clauses (a) distinct, (b) decreasing peak-to-peak amplitude, (c) peak channel attains the maximum, is listed, first listed '
              'attains it, (d) amplitude j is that of channel j, (e) listed channels are exactly the near ones on the peak shank reaching the threshold — about 100 obligations incl. 13 stepping-stone hints. '
-             'BOUNDED only: _get_template_dense/_sparse (column / unwhitening alignment), explicit channel lists, accessors, on exhaustive small templates and loaded datasets.',
+             '_get_template_dense (the record plumbing, automatic and explicit channel lists, with and without unwhitening): one waveform column and one amplitude per listed channel, amplitude j is the '
+             'peak-to-peak of column j of the RETURNED waveform, an explicit list is returned as given, the automatic list is non-empty, distinct, in range, lists the peak channel and has decreasing amplitudes. '
+             'BOUNDED only: _get_template_sparse, the numeric content of unwhitening/casts, accessors, on exhaustive small templates and loaded datasets.',
         note='Assumed: the 1-D NumPy theory of pyvc/npth.py (argsort, argmax, nonzero, intersect1d, gather, comparisons); squares abstracted by sq(t)>=0 and sq(t)=0 iff t=0; products of two reals by sign/scaling facts; '
-             'no NaN in templates; pairwise distinct channel positions; "near" is DEFINED as membership in the result of get_closest_channels (A-DEF).',
+             'no NaN in templates; pairwise distinct channel positions; "near" is DEFINED as membership in the result of get_closest_channels (A-DEF); a 2-D template is seen through its per-channel '
+             'extremes: templates[i, ...], _unwhiten and astype return a template of the same width (values unspecified), t[:, ids] permutes the extremes, Bunch(**kw) is a record of the given values.',
         assumptions=['A-LIB 1-D NumPy array theory (pyvc/npth.py)', 'A-REAL floats as reals, no NaN']),
     'C06': dict(level='proof',
         text='PROVED for all inputs of rank 2 and rank 3 (any number of spikes, stored columns, requested channels, any trailing length): from_sparse returns one row per spike and one column per requested channel, holding at '
